@@ -54,7 +54,9 @@ GlycanSum(ev, ps) == CSum([ q \in 1..Len(ps) |->
 
 GlycanFails(ev) ==
     IF ev.out # "ret" THEN {"raised_" \o ev.out}
-    ELSE (IF Unambiguous(ev, ev.text) /\ Comp(ev.parsed) # Comp(ev.dict) THEN {"glycan_round_trip_changed_the_counts"} ELSE {})
+    ELSE (IF Unambiguous(ev, ev.text) /\ ev.parseOut # "ret" THEN {"unambiguous_glycan_text_rejected_" \o ev.parseOut} ELSE {})
+         \cup (IF Unambiguous(ev, ev.text) /\ ev.parseOut = "ret" /\ Comp(ev.parsed) # Comp(ev.dict)
+               THEN {"glycan_round_trip_changed_the_counts"} ELSE {})
          \cup (IF Clean(Comp(ev.comp)) # Clean(GlycanSum(ev, ev.dict)) THEN {"glycan_composition_is_not_the_weighted_sum"} ELSE {})
          \cup (IF Clean(Comp(ev.compSyn)) # Clean(Comp(ev.comp)) THEN {"synonyms_give_another_composition"} ELSE {})
          \cup (IF ~FWithin(ev.massSyn, ev.mass, Nano(20)) THEN {"synonyms_give_another_mass"} ELSE {})
